@@ -31,6 +31,7 @@ import (
 	"fmt"
 	lru "github.com/hashicorp/golang-lru"
 	"sort"
+	"sync"
 )
 
 const (
@@ -108,6 +109,12 @@ type TxPool struct {
 
 	executed db.Database
 	batch    db.Batch
+
+	// lock serialises submission (network / game executor goroutines) with
+	// block bookkeeping (MarkExecuted / UnMarkExecuted): the existence check
+	// and the insertion of add, and the executed write and the pending
+	// removal of MarkExecuted, must not interleave; it also guards batch.
+	lock sync.Mutex
 }
 
 var (
@@ -176,6 +183,9 @@ func (pool *TxPool) AddTransaction(tx *types.Transaction) (bool, error) {
 	//	return false, ErrEvicted
 	//}
 
+	pool.lock.Lock()
+	defer pool.lock.Unlock()
+
 	b, err := pool.add(tx)
 	if nil == err {
 		pool.refreshGateNonce(tx)
@@ -184,6 +194,9 @@ func (pool *TxPool) AddTransaction(tx *types.Transaction) (bool, error) {
 }
 
 func (pool *TxPool) MarkExecuted(header *types.BlockHeader, receipts types.Receipts, txs []*types.Transaction, evictedTxs []common.Hash) {
+	pool.lock.Lock()
+	defer pool.lock.Unlock()
+
 	txHashList := make([]interface{}, 0)
 
 	if receipts != nil && len(receipts) != 0 {
@@ -241,6 +254,9 @@ func (pool *TxPool) MarkExecuted(header *types.BlockHeader, receipts types.Recei
 }
 
 func (pool *TxPool) UnMarkExecuted(block *types.Block) {
+	pool.lock.Lock()
+	defer pool.lock.Unlock()
+
 	txs := block.Transactions
 	evictedTxs := block.Header.EvictedTxs
 	if nil == txs || 0 == len(txs) {
